@@ -12,7 +12,13 @@
    covered a    : true for every AST: the completeness theorem covers the whole command set
                   CAPABILITY NOOP NAMESPACE IDLE LOGOUT CHECK CLOSE UNSELECT EXPUNGE AUTHENTICATE LOGIN SELECT
                   EXAMINE CREATE DELETE SUBSCRIBE UNSUBSCRIBE RENAME LIST LSUB (incl. LIST-EXTENDED) STATUS ID
-                  APPEND SEARCH FETCH STORE COPY MOVE and UID COPY/FETCH/MOVE/SEARCH/STORE/EXPUNGE. *)
+                  APPEND SEARCH FETCH STORE COPY MOVE and UID COPY/FETCH/MOVE/SEARCH/STORE/EXPUNGE.
+   Not in the AST (hence not in the theorems; compared by harness/props/c08.py only):
+     - IMAPClientCommand.list_reference, the LIST reference with its trailing "/" kept, derived from the
+       raw text of the reference (added to asimap/parse.py by the C17 fix while this was being finished);
+     - the derived attribute fetch_peek (checked against the FETCH attributes by the harness);
+     - spellings of a LIST reference that os.path.normpath changes ("foo/", "a//b"): `render` prints the
+       normalised name only, the correspondence run also uses the others. *)
 From Asimap Require Import Base.Res Base.Bytes Model.Lex Spec.Grammar Model.ParseM
                            Proofs.LexP Proofs.ParseP Proofs.ParseT Proofs.ParseS.
 Open Scope Z_scope.
